@@ -28,6 +28,41 @@ CLAIMS = {
         'Decides that async_fifo_stream has the same pairing/one-hand-off/one-yield structure as fifo_stream (in particular that an element rejected by the preprocessor is enqueued with its own pre-failed future on every path), and that Server.stream/AsyncServer.stream and the parmapper classes delegate with the same flag mapping. Not verified: equality of produced values.',
         'DESIGN.md 4/C16',
     ),
+    'C02': (
+        'ast + CFG: FRESH closure (cyclic-path staleness) down to queue gets at every (id, payload) put, per-iteration COUNT on the id side queues, dominance (PRECEDE) of ledger/catalog stores over sends, ORIGIN of request ids, AGREE of ensemble member index',
+        'Decides the structural clauses: every message put in a service loop of the worker/servlet code carries an id and payload obtained in the same iteration on every path; one id enqueued per input handed to Worker.stream and one dequeued per output (FIFO side queue); the ledger entry is stored before the input is sent; request ids are never minted with builtin id(); the ensemble catalog is stored before member sends, looked up with the message id, filled at the member index, popped exactly once before each emit; gather resolves the future popped with the message id with that message payload. Not verified: that the stages compute the configured composition (value-level).',
+        'DESIGN.md 4/C02',
+    ),
+    'C05': (
+        'ast + CFG with exception and generator thrown-in edges: EXITS enumeration of producer and consumer exits under the raise-set {Exception, StopRequested}; AGREE of terminal vocabularies; COUNT + LINEAR counting argument for the finaliser join; PAIR of started helpers',
+        'For the five producer/consumer pairs (fifo_stream, async_fifo_stream, Buffer, AsyncBuffer, SyncIter): every producer exit puts a terminal item; the consumer recognises every terminal item the producer can send; every abnormal consumer exit (GeneratorExit thrown in at each yield, failures) sets the stop flag the producer polls each iteration; the producer join cannot wedge on a full queue (liveness-conditioned timed drain, or puts-after-drain <= guaranteed slots); helper threads/tasks/executors are joined or shut down on all exits. Not verified: bounded time in seconds, executor internals.',
+        'DESIGN.md 4/C05',
+    ),
+    'C06': (
+        'ast + CFG: MUSTPASS (guard re-evaluated between Condition.wait and ledger insert, with LINEAR normalisation of the guard), HELD lock regions, PRECEDE (no effect before a rejection), per-iteration COUNT of admission signals, WHO (single writer / single deleter of the ledger)',
+        'For Server and AsyncServer: the capacity guard len(ledger) >= capacity is re-evaluated after every wake-up and on every path to the insert, inside one region of the admission lock; a rejected request has stored/sent nothing; the gather loop pops the ledger unconditionally per message and signals the admission condition exactly once per popped entry (notify under the lock); only the admission function writes and only the gather loop deletes ledger entries; the wait is bounded by the caller timeout. Not verified: fairness, exact expiry instants, the numeric backlog itself.',
+        'DESIGN.md 4/C06',
+    ),
+    'C07': (
+        'ast + CFG with InvalidStateError/KeyError fallibility on the gather loop: EXITS (no such exception can leave the loop), WHO (what _wait_for_result and the stream cleanup may touch)',
+        'Direct set_result/set_exception in the gather thread on a future the caller may cancel is protected (InvalidStateError handled inside the loop) or deferred to the event loop - a bare cancelled() check is reported as check-then-act; an unknown id is tolerated; abandonment only cancels the caller\'s own future and never touches ledger, queues or condition; timed-out callers do not delete their ledger entry. Not verified: which of late result / timeout wins.',
+        'DESIGN.md 4/C07',
+    ),
+    'C09': (
+        'ast + CFG: GUARD (path-sensitive isinstance/None facts with disjunctive states), COUNT (append vs counter, destinations per request), deadline-shape dataflow, WHO on the batch buffer, HELD for wait discipline',
+        'Values handed to the batch buffer and to Worker.stream are proven non-exception/non-RemoteException on every path, items appended to a batch are proven not None; a batch starts with one element and grows by one per counted iteration under a strict < batch_size guard; every dequeued request goes to exactly one of buffer/output; only the first get of a batch is untimed, later gets are bounded by a deadline fixed after the first element from batch_wait_time and queue.Empty releases the batch; the batch buffer is single-producer/single-consumer; predicates governing untimed Condition.wait() are evaluated under the lock. Not verified: wall-clock accuracy, fairness between workers.',
+        'DESIGN.md 4/C09',
+    ),
+    'C10': (
+        'ast + CFG of Fork.__next__: may/must lock sets (HELD), EXITS with the source as user code, a wait-for graph over {source lock, window slots} (WAITFOR) including the tail call into the next activation, PRECEDE, MUSTPASS',
+        'The source lock is released on every exit including a raising source; no untimed acquisition of the source lock precedes the consume step while a put under the lock can block (no cycle of unbounded waits); the element is linked before the blocking put; every pull is under the lock after an under-lock re-test; counter increment, comparison with n_forks and window pop are one region of the element lock. Not verified: that every fork observes the source exception; element values.',
+        'DESIGN.md 4/C10',
+    ),
+    'C12': (
+        'ast + CFG with the target as user code raising any BaseException and Connection.recv raising {EOFError, Exception}: whole-function COUNT of resolutions / sends per path, EXITS, PRECEDE (joins dominate reads of the future), SIBLING agreement of the four wait/as_completed maps',
+        'Thread.run resolves its future exactly once on every path and never raises; the child sends exactly one (result, error) pair of an allowed kind on every way the target ends and closes the pipe on every exit; the collector resolves the future exactly once on every exit (result, EOF after a signal, failing recv) and cannot die with it pending; join/result/exception read the future only after the OS-level join, the collector join and a passed finished-test; wait/as_completed index and look up by the same key. Not verified: exit-code values, signal timing.',
+        'DESIGN.md 4/C12',
+    ),
 }
 
 NOT_YET = 'check not built yet in this session (rules planned in DESIGN.md section 4); not claimed until its rules exist'
